@@ -140,7 +140,8 @@ def _script_main():
             for pc, pcase, psteps in prior:
                 target.load_config(gen.CONFIGS[pc])
                 step_trace(e1.build(pcase), psteps)
-        if req['with_prior'] and configurations.configs:
+        if req['with_prior']:
+            target.load_config(gen.CONFIGS[req['cfgname']])
             # an earlier user of the process changed configuration values in memory (never written to a file): a new instance created from a
             # configuration file still gets exactly what the file says
             for k, v in list(configurations.configs.items()):
